@@ -925,6 +925,8 @@ class Interp:
             if self.cfg.env_attr is not None:
                 r = self.cfg.env_attr(self, v, name)
                 if r is not NotImplemented:
+                    if type(r).__name__ == "Volatile":
+                        return r.value          # may change between reads (other threads / handlers): not memoised
                     v.attrs[name] = r
                     return r
             if isinstance(v.cls, ClassInfo):
@@ -1026,6 +1028,8 @@ class Interp:
             return
         if v is None:
             self.raise_("AttributeError", f"'NoneType' object has no attribute '{name}'")
+        if hasattr(v, "sym_setattr"):
+            return v.sym_setattr(self, name, val)
         raise Unsupported(f"setattr on {type(v).__name__}")
 
     # ------------------------------------------------------------------ calls
@@ -2210,6 +2214,45 @@ class Interp:
             except ContinueSig:
                 continue
         yield from self.exec_block(s.orelse, fr)
+
+    def for_stream(self, s, fr, spec, next_elem, name="stream"):
+        """Inductive treatment of `for x in <adversarial stream>`: the stream may end at any point or produce another
+        element (next_elem(I, index) builds it, forking over its kinds).  One arbitrary iteration is executed."""
+        if spec is None:
+            raise Unsupported(f"for over {name} without loop contract in {fr.fi.qualname}")
+        q = fr.fi.qualname
+        k = self.loop_ordinal(fr, s)
+        base = f"{self.cfg.ob_prefix}{q}/loop{k}"
+        idx_name = f"__idx{k}"
+        fr.locals[idx_name] = 0
+        self.ob(f"{base}/invariant-on-entry", spec.invariant(self, fr))
+        names = spec.modifies_locals if spec.modifies_locals is not None else self.assigned_names(s.body)
+        for nm in names:
+            ok, cur = fr.lookup(nm)
+            if ok:
+                fr.locals[nm] = self.fresh_like(cur, nm)
+        i = self.fresh("int", "i")
+        self.assume(i.e >= 0)
+        fr.locals[idx_name] = i
+        spec.havoc(self, fr)
+        self.assume(spec.invariant(self, fr))
+        if self.choose(2, "stream continues") == 1:
+            spec.on_exit(self, fr)
+            yield from self.exec_block(s.orelse, fr)
+            return
+        x = next_elem(self, i)
+        self.assign(s.target, x, fr)
+        try:
+            yield from self.exec_block(s.body, fr)
+        except BreakSig:
+            return
+        except ContinueSig:
+            pass
+        fr.locals[idx_name] = SV(i.e + 1, "int")
+        tag = getattr(spec, "ob_tag", None)
+        self.ob(f"{base}/invariant-preserved{tag(self, fr) if tag else ''}", spec.invariant(self, fr))
+        spec.after_body(self, fr)
+        raise PathEnd()
 
     def _for_symseq(self, s, fr, seq: SymSeq, spec):
         if spec is None:
